@@ -240,6 +240,11 @@ impl ToZinc for Uri {
                 '`' => writer.write_all(br"\`")?,
                 '\\' => writer.write_all(br"\\")?,
                 '\x20'..='\x7e' => writer.write_all(&[c as u8])?,
+                '\u{10000}'..='\u{10ffff}' => {
+                    // Not expressible as a 4 hex digits escape
+                    let mut buf = [0; 4];
+                    writer.write_all(c.encode_utf8(&mut buf).as_bytes())?
+                }
                 _ => writer.write_fmt(format_args!("\\u{:04x}", c as u32))?,
             }
         }
